@@ -435,6 +435,8 @@ impl SessionEngine {
         (old(self).session.st is Mapped || old(self).session.st is EndSent || old(self).session.st is Discarding) && r is Ok ==>
             final(self).incoming.taken@.len() > old(self).incoming.taken@.len() && final(self).incoming.taken@.last().body is End,     // [C13.session.end-returns-after-peer-answer]
         old(self).session.st is Mapped && r is Ok ==> final(self).session.st is Unmapped,
+        old(self).session.st is EndSent && r is Ok ==> final(self).session.st is Unmapped
+            && final(self).incoming.taken@.last().body->End_0.error is None,                                          // [C13.session.peer-end-error-reported] the End of the peer that completes a local end is taken in (state UNMAPPED) and an error it carries is what is reported -- it is not waited for and then thrown away
 //@@ end
 
 //@@ fn file=fe2o3-amqp/src/session/engine.rs impl=`~impl<S>SessionEngine<S>whereS:endpoint::SessionEndpoint<State=SessionState>+SendBound+Sync+'static,` name=on_error
@@ -487,7 +489,8 @@ impl SessionEngine {
             &&& final(self).outgoing_link_frames.queue@.len() == 0
             &&& final(self).session.st == (if control->End_0 is Some { SessionState::Discarding } else { SessionState::EndSent })
         }),
-        control is End && !(old(self).session.st is Mapped || old(self).session.st is EndReceived) ==> r is Err && extended_without_end(old(self).outgoing.sent@, final(self).outgoing.sent@),   // [C13.session.one-end] a second end request (or one before the session is mapped) writes no End
+        control is End && !(old(self).session.st is Mapped || old(self).session.st is EndReceived || old(self).session.st is EndSent || old(self).session.st is Discarding) ==> r is Err && extended_without_end(old(self).outgoing.sent@, final(self).outgoing.sent@),   // [C13.session.one-end] an end request before the session is mapped (or after it is over) writes no End
+        control is End && (old(self).session.st is EndSent || old(self).session.st is Discarding) ==> r is Ok && final(self).session == old(self).session,   // [C13.session.repeated-end-request-ignored] a further end request once the local End is out (try_end() polled again, end() after try_end()) is ignored: it writes nothing, changes nothing and is NOT an error that would replace the result of the end handshake (the peer's error, or a clean end) by IllegalState
         (old(self).session.st is EndSent || old(self).session.st is Discarding) ==> final(self).outgoing.sent@ == old(self).outgoing.sent@,   // [C13.session.nothing-after-end] whatever is still asked of the session once its End is out (a disposition queued behind the end request by a transaction commit, a second end request), nothing is written
         // nothing else the application asks for puts an End on the wire
         !(control is End) ==> extended_without_end(old(self).outgoing.sent@, final(self).outgoing.sent@),              // [C13.session.controls-are-not-end]
